@@ -58,6 +58,7 @@ inductive Prim where
   | uuid
   | uuidInts
   | str (max : Nat)         -- WriteString / ReadStringMax max
+  | strNE (max : Nat)       -- ReadStringMax max, then `if len(s) == 0 { return errEmpty… }`
   | bytes (max : Nat)       -- WriteBytes / ReadBytesLen max
   | bytes17 (ext : Bool)    -- WriteBytes17 _ ext / ReadBytes17
   | fixed (n : Nat)         -- n raw bytes (io.ReadFull into make([]byte, n))
@@ -75,6 +76,7 @@ def enc : Prim → Val → Bytes
   | .uuid, v => writeUUID v.getBytes
   | .uuidInts, v => writeUUIDIntArray v.getBytes
   | .str _, v => writeBytes v.getBytes
+  | .strNE _, v => writeBytes v.getBytes
   | .bytes _, v => writeBytes v.getBytes
   | .bytes17 _, v => writeBytes17 v.getBytes
   | .fixed _, v => v.getBytes
@@ -100,6 +102,10 @@ def dec : Prim → Bytes → Rd Val
   | .uuid, bs => mapRd .bytes (readUUID bs)
   | .uuidInts, bs => mapRd .bytes (readUUIDIntArray bs)
   | .str max, bs => mapRd .bytes (readStringMax max bs)
+  | .strNE max, bs =>
+    match readStringMax max bs with
+    | .ok (b, r) => if b.isEmpty then .error .invalid else .ok (.bytes b, r)
+    | .error e => .error e
   | .bytes max, bs => mapRd .bytes (readBytesLen max bs)
   | .bytes17 _, bs => mapRd .bytes (readBytes17 bs)
   | .fixed n, bs => mapRd .bytes (readFull n bs)
@@ -113,7 +119,7 @@ def dec : Prim → Bytes → Rd Val
     the length checks, before `io.ReadFull`), and whether the read then succeeded.  Fixed-width
     scalars allocate nothing that depends on the input. -/
 def alloc : Prim → Bytes → Nat
-  | .str max, bs =>
+  | .str max, bs | .strNE max, bs =>
     match readVarInt bs with
     | .ok (len, _) => if len < 0 then 0 else if len > (max * 4 : Nat) then 0 else len.toNat
     | .error _ => 0
@@ -136,7 +142,7 @@ def alloc : Prim → Bytes → Nat
 
 /-- static upper bound of `alloc` that is NOT backed by input bytes -/
 def cap : Prim → Nat
-  | .str max => max * 4
+  | .str max | .strNE max => max * 4
   | .bytes max => max
   | .bytes17 _ => forgeMaxArrayLength
   | .key => defaultMaxStringSize * 4
@@ -245,6 +251,9 @@ structure PSchema where
   /-- the model's decode outcome is meant to equal Go's on ARBITRARY bytes (no abstraction such as x509 /
       uuid.Parse / JSON parsing sits between the wire and the decoded struct) -/
   exact : Bool := true
+  /-- on arbitrary accepted bytes the decoded VALUES are also meant to equal what the harness extracts from Go's
+      struct (false where Go normalises: channel-name rewriting, Go maps) -/
+  vals : Bool := true
 
 namespace PSchema
 
